@@ -32,9 +32,9 @@ class AnchorLost(Exception):
     pass
 
 
-def rule(rid, floor=0, doc=""):
+def rule(rid, floor=0, doc="", floor_release=None):
     def deco(fn):
-        RULES[rid] = (fn, {"floor": floor, "doc": doc or (fn.__doc__ or "").strip()})
+        RULES[rid] = (fn, {"floor": floor, "floor_release": floor_release, "doc": doc or (fn.__doc__ or "").strip()})
         return fn
     return deco
 
@@ -61,9 +61,12 @@ def run_rule(rid, ctx):
         out.append(Inst(rid, "rule-crashed:%s" % type(e).__name__, False, fact="rule crashed: %r" % (e,),
                         kind="machinery error", detail={"trace": traceback.format_exc()[-3000:]}))
     n = len([i for i in out if i.kind not in ("anchor lost", "machinery error")])
-    if n < meta["floor"]:
+    floor = meta["floor"]
+    if meta.get("floor_release") is not None and not ctx.facts.config.get("overflow_checks", True):
+        floor = meta["floor_release"]
+    if n < floor:
         out.append(Inst(rid, "floor", False, fact="found %d instances" % n,
-                        oracle="at least %d instances (hand count on the pinned tree)" % meta["floor"],
+                        oracle="at least %d instances (hand count on the pinned tree)" % floor,
                         kind="anchor lost"))
     cache[rid] = list(out)
     return out
